@@ -319,7 +319,7 @@ UNITS = [
     Unit("interrupted", check_interrupted, strategy=_interrupted_cases, quick=160, thorough=2000, shards_quick=8,
          doc="calls interrupted by an injected exception, then evaluated normally: an interrupted verification leaves nothing behind "
              "that could count as a signer later"),
-    Unit("config", check_config, strategy=_config_cases, quick=24, thorough=400, shards_quick=8, shrink=False,
+    Unit("config", check_config, strategy=_config_cases, quick=96, thorough=600, shards_quick=16, shrink=False,
          doc="soundness in fresh interpreters: -O, logging level, warnings filter, stdout encoding / closed stdout, discovered environment variables"),
     Unit("signable", check_signable, strategy=lambda: _envelopes_spelled(), quick=1200, thorough=40000,
          essential=["other_payload:leaf", "bitflip:signature", "misfiled", "wrong_shape", "malformed", "upper_sig",
